@@ -478,6 +478,8 @@ TEXT_CORE = ["text_scaled<SI<i8,-4>>", "text_scaled<SI<i32,-30>>", "text_scaled<
              # radices that are not powers of two with positive exponents (the capacity formula's general case)
              "text_scaled<SI<i8,2,3>>", "text_scaled<SI<u8,4,3>>", "text_scaled<SI<i16,3,7>>", "text_scaled<SI<u8,2,6>>",
              "text_scaled<SI<cnl::elastic_integer<1, unsigned>,5,3>>",
+             # round 10: representations wider than 64 bits (the significand of descale is then as wide as the representation)
+             "text_scaled<SI<cnl::int128_t,-100>>", "text_scaled<SI<cnl::int128_t,-20>>",
              "text_integer<i8>", "text_integer<u8>", "text_integer<i16>", "text_integer<i32>", "text_integer<u32>",
              "text_integer<i64>", "text_integer<u64>", "text_integer<cnl::int128_t>", "text_integer<cnl::uint128_t>",
              "text_integer<cnl::elastic_integer<20>>",
